@@ -1513,12 +1513,9 @@ def _resolve_static_positions_iterative(
                 if real_position is None:
                     continue
 
-                # Current bounds
+                # Current bounds (already known bounds are validated below, not skipped: they may have
+                # been set by constraints before the size needed for partial_real_position was known)
                 b0, b1 = slice_dict[obj_name][axis]
-
-                # Already fully resolved
-                if b0 is not None and b1 is not None:
-                    continue
 
                 # Need object size to compute centered bounds
                 size = shape_dict[obj_name][axis]
